@@ -291,6 +291,7 @@ M.loop(P_SV + ':_validate_symbol_definition', 0,
        modifies=dict(referenced_value='local', failure_info='local', symbol_table='in-place'))
 
 M.contract(P_SV + ':validate_symbol_usage', params=dict(usage=USAGE, symbol_table=TABLE),
+           cover=('Unknown variant',),       # closed world: a usage is a reference or a definition (check `usage-variants`)
            requires=lambda symbol_table: closed(view(symbol_table)),
            returns=RESULT, modifies=('symbol_table',), old=lambda symbol_table: dict(view(symbol_table)),
            ensures={
@@ -423,8 +424,7 @@ M.contract('exactly_lib.execution.impl.phase_step_execution:run_instructions_pha
            # closedness: what every `apply` requires and re-establishes (proved above)
            requires=lambda instruction_executor: closed(view(table_of(instruction_executor))),
            ensures={'closed': lambda instruction_executor: closed(view(table_of(instruction_executor)))},
-           modifies=('instruction_executor',), may_raise=(PhaseStepFailureException,), event='phase',
-           event_on_raise='raised')
+           modifies=('instruction_executor',), may_raise=(PhaseStepFailureException,), event='phase')
 M.trust('execution.impl.phase_step_execution.run_instructions_phase_step applies the given executor to each '
         'instruction of the given phase in order and raises PhaseStepFailureException at the first failure (C01)')
 
@@ -448,19 +448,34 @@ def _validator_invariant(v):
 
 VALIDATOR = Custom(_mk_validator)
 
+def _steps(trace):
+    """the validation steps started: ('phase', {...}) / ('atc', {...}) events of the contracts used"""
+    return [e for e in trace if e[0] in ('phase', 'atc')]
+
+
+def _failures(trace):
+    """(position, event) of the steps that raised"""
+    return [e for e in trace if e[0] in ('phase:raised', 'atc:raised')]
+
+
 M.contract(P_PSV + ':SymbolsValidator._validate',
            params=dict(self=VALIDATOR, step=Any_, phase_contents=Iface(SectionContentsI)), inline=True,
            modifies=('self',), may_raise=(PhaseStepFailureException,),
            ensures={'closed': lambda self: _validator_invariant(self),
                     'the shared executor on this phase': lambda self, step, phase_contents, trace:
-           len(trace) == 1 and trace[0][0] == 'phase' and trace[0][1]['instruction_executor'] is self._validation_executor
-           and trace[0][1]['phase_contents'] is phase_contents and trace[0][1]['step'] is step},
+           len(_steps(trace)) == 1 and _steps(trace)[0][0] == 'phase'
+           and _steps(trace)[0][1]['instruction_executor'] is self._validation_executor
+           and _steps(trace)[0][1]['phase_contents'] is phase_contents and _steps(trace)[0][1]['step'] is step},
            raises_only=())
 
+class PhaseStepFailureI(Interface):
+    attrs = {'status': EnumOf(ExecutionFailureStatus), 'failure_info': Any_}
+
+
 M.contract(P_PSV + ':SymbolsValidator._validate_atc', params=dict(self=VALIDATOR), modifies=('self',), event='atc',
-           event_on_raise='raised',
            old=lambda self: dict(view(self._symbols)),
            raises={PhaseStepFailureException: {
+               'shape': Inst(PhaseStepFailureException, failure=Iface(PhaseStepFailureI)),
                'ensures': lambda self, exc, old:
                exc.failure.status is ExecutionFailureStatus.VALIDATION_ERROR
                and rejected(old, self._action_to_check.symbol_usages(), view(self._symbols))}},
@@ -497,11 +512,12 @@ M.contract(P_PSV + ':SymbolsValidator.validate', params=dict(self=VALIDATOR), mo
            raises={PhaseStepFailureException: {
                'ensures': lambda self, exc, trace:
                # the failing step is the last one started, its failure is propagated unchanged, nothing follows
-               len(trace) >= 2 and trace[-1][0] == 'raised' and trace[-1][1] is exc
-               and all(e[0] != 'raised' for e in trace[:-1])
-               and _is_prefix_of_execution_order(self, trace[:-1])}},
+               len(_failures(trace)) == 1 and trace[-1] is _failures(trace)[0] and trace[-1][2] is exc
+               and trace[-1][0] == _steps(trace)[-1][0] + ':raised'
+               and _is_prefix_of_execution_order(self, _steps(trace))}},
            ensures={'all five phases, in execution order, with the one shared table; none of them failed':
-                    lambda self, trace: len(trace) == 5 and _is_prefix_of_execution_order(self, trace),
+                    lambda self, trace: len(_steps(trace)) == 5 and _failures(trace) == []
+                    and _is_prefix_of_execution_order(self, _steps(trace)),
                     'closed': lambda self: _validator_invariant(self)},
            raises_only=())
 
@@ -919,6 +935,7 @@ def _resolved(trace):
 M.contract(P_SDVI + ':SymbolStringFragmentSdv.resolve',
            params=dict(self=Inst(string_sdv_impls.SymbolStringFragmentSdv, _symbol_reference=REFERENCE),
                        symbols=DATA_TABLE),
+           cover=('Not a {}',),      # closed world of data values: string, path, list (model of DataSdvI.resolve)
            requires=lambda self, symbols: self._symbol_reference.name in view(symbols),     # validated: ref_ok
            ensures={
                'the value of the referenced symbol, resolved against the same table': lambda self, symbols, trace:
@@ -981,6 +998,7 @@ M.loop(P_SDDV + ':StringDdv.value_when_no_dir_dependencies', 'join#0',
 _REF_ELEMENT = Inst(list_sdv.SymbolReferenceElementSdv, _symbol_reference=REFERENCE)
 
 M.contract(P_LSDV + ':SymbolReferenceElementSdv.resolve', params=dict(self=_REF_ELEMENT, symbols=DATA_TABLE),
+           cover=('Unknown Symbol Value',),      # closed world of data values: string, path, list
            requires=lambda self, symbols: self._symbol_reference.name in view(symbols),     # validated: ref_ok
            ensures={
                'the value of the referenced symbol, resolved against the same table': lambda self, symbols, trace:
